@@ -185,6 +185,7 @@ macro_rules! filter_harness {
         #[kani::stub(::smallvec::SmallVec::spilled, crate::move_generator::verif_never_spilled)]
         #[kani::stub(::smallvec::SmallVec::try_grow, crate::move_generator::verif_no_grow)]
         #[kani::stub(crate::move_generator::targets::Targets::generate_attack_targets, crate::move_generator::targets::Targets::stub_attack)]
+        #[kani::stub(::smallvec::SmallVec::append, crate::move_generator::VerifSv::append)]
         fn $name() {
             c01_filter($white, $kind);
         }
@@ -244,6 +245,7 @@ fn c01_filter_pair(white: bool) {
 #[kani::stub(::smallvec::SmallVec::spilled, crate::move_generator::verif_never_spilled)]
 #[kani::stub(::smallvec::SmallVec::try_grow, crate::move_generator::verif_no_grow)]
 #[kani::stub(crate::move_generator::targets::Targets::generate_attack_targets, crate::move_generator::targets::Targets::stub_attack)]
+#[kani::stub(::smallvec::SmallVec::append, crate::move_generator::VerifSv::append)]
 fn c01_filter_pair_w() {
     c01_filter_pair(true);
 }
@@ -547,6 +549,7 @@ macro_rules! pwire_harness {
         #[kani::stub(crate::move_generator::targets::generate_pawn_attack_targets, crate::move_generator::kani_verif::pwire::attack_targets)]
         #[kani::stub(crate::move_generator::expand_piece_targets, crate::move_generator::kani_verif::pwire::expand)]
         #[kani::stub(crate::move_generator::generate_en_passant_moves, crate::move_generator::kani_verif::pwire::en_passant)]
+        #[kani::stub(::smallvec::SmallVec::append, crate::move_generator::VerifSv::append)]
         fn $name() {
             c01_wire_pawn($white);
         }
@@ -1290,3 +1293,237 @@ fn c02_wire_attack_cache() {
     core::mem::forget(mg);
     core::mem::forget(board);
 }
+
+// -------------------------------------------------------------------------------------------------
+// C01.filter (fixed-position shape). The fully symbolic shape (c01_filter_<kind>_<colour>) exceeds the
+// memory cap in CBMC's propositional reduction; here the position and the candidate are concrete and the
+// attack map A is the symbolic variable (all 2^64 maps): kept <=> A misses the mover's king on the
+// successor position; A is requested once, for the opponent, on the successor; the board is restored.
+// What is quantified: the keep/drop decision and the wiring; apply/undo exactness for ALL positions is C03/C04.
+
+fn fixed_case(case: u8) -> (Raw, bool, RMove) {
+    // piece order in Raw: [pawn, knight, bishop, rook, queen, king]
+    let start = Raw {
+        w: [0xFF00, 0x42, 0x24, 0x81, 0x08, 0x10],
+        b: [0x00FF_0000_0000_0000, 0x4200_0000_0000_0000, 0x2400_0000_0000_0000, 0x8100_0000_0000_0000, 0x0800_0000_0000_0000, 0x1000_0000_0000_0000],
+        ep: 0,
+        rights: 15,
+    };
+    match case {
+        // 0: white knight g1-f3 from the starting position
+        0 => (start, true, RMove { kind: 0, from: 6, to: 21, promo: 4 }),
+        // 1: white king e1-e2 (king moves: the king square changes); Ke1 Ra1 vs Ke8 Ra8, white queenside right only
+        1 => (Raw { w: [0, 0, 0, 1, 0, 1 << 4], b: [0, 0, 0, 1 << 56, 0, 1 << 60], ep: 0, rights: 0b0011 }, true, RMove { kind: 0, from: 4, to: 12, promo: 4 }),
+        // 2: black rook a8xa1 (capture of a home rook)
+        2 => (Raw { w: [0, 0, 0, 1, 0, 1 << 4], b: [0, 0, 0, 1 << 56, 0, 1 << 60], ep: 0, rights: 0b0011 }, false, RMove { kind: 0, from: 56, to: 0, promo: 4 }),
+        // 3: white en passant e5xd6 (black pawn d7-d5 just played): Ke1 Pe5 vs Ke8 Pd5, target d6
+        3 => (Raw { w: [1 << 36, 0, 0, 0, 0, 1 << 4], b: [1 << 35, 0, 0, 0, 0, 1 << 60], ep: 1 << 43, rights: 0 }, true, RMove { kind: 2, from: 36, to: 43, promo: 4 }),
+        // 4: white O-O: Ke1 Rh1 vs Ke8
+        4 => (Raw { w: [0, 0, 0, 1 << 7, 0, 1 << 4], b: [0, 0, 0, 0, 0, 1 << 60], ep: 0, rights: 0b1000 }, true, RMove { kind: 3, from: 4, to: 6, promo: 4 }),
+        // 5: black promotion with capture b2xa1=N: Ke8 Pb2 vs Ke1 Ra1
+        _ => (Raw { w: [0, 0, 0, 1, 0, 1 << 4], b: [1 << 9, 0, 0, 0, 0, 1 << 60], ep: 0, rights: 0b0010 }, false, RMove { kind: 1, from: 9, to: 0, promo: 1 }),
+    }
+}
+
+fn c01_filter_fixed(case: u8) {
+    let (x, white, m) = fixed_case(case);
+    assert!(rf::rep_inv(&x, white) && rf::legalish(&x, white, &m), "the fixed case is a consistent position with a rules-shaped move");
+    let a = Aux { ep_prefix: 0, rights_prefix: 15, half: [0, 3], full: 10, hash: 7, max_seen: [1, 1], turn_white: white };
+    let mut board = Board::verif_from_raw(&x, &a);
+    let em = engine_move(&x, white, &m);
+    let att: u64 = kani::any();
+    kani_att::reset([att, 0, 0, 0]);
+    let mut t = Targets::verif_blank();
+    let mut cands = ChessMoveList::new();
+    cands.push(em.clone());
+    remove_invalid_moves(&mut cands, &mut board, color(white), &mut t);
+    let want = rf::successor(&x, white, &m);
+    assert!(kani_att::calls() == 1, "one attack-map request per candidate");
+    assert!(kani_att::color_white(0) == !white, "attack map requested for the opponent");
+    assert!(kani_att::board_occ(0) == want.occ(), "attack map requested on the position after the move");
+    let king_after = want.own(white)[rf::K];
+    let keep = att & king_after == 0;
+    assert!(cands.len() == keep as usize, "candidate kept iff the mover's king is not attacked after the move");
+    if keep {
+        assert!(cands[0] == em, "the kept move is the candidate itself");
+    }
+    assert!(raw_eq(&board.verif_raw(), &x), "legality filtering leaves the board as found");
+    assert!(board.verif_move_info().verif_depths() == (2, 2, 2) && board.halfmove_clock() == 3 && board.fullmove_clock() as u64 == 10);
+    crate::vcover!(keep, "kept");
+    crate::vcover!(!keep, "dropped");
+    core::mem::forget(t);
+    core::mem::forget(cands);
+    core::mem::forget(board);
+}
+
+macro_rules! filter_fixed_harness {
+    ($name:ident, $case:expr) => {
+        #[kani::proof]
+        #[kani::unwind(8)]
+        #[kani::stub(::smallvec::SmallVec::reserve_one_unchecked, stub_no_spill)]
+        #[kani::stub(::smallvec::SmallVec::spilled, crate::move_generator::verif_never_spilled)]
+        #[kani::stub(::smallvec::SmallVec::try_grow, crate::move_generator::verif_no_grow)]
+        #[kani::stub(crate::move_generator::targets::Targets::generate_attack_targets, crate::move_generator::targets::Targets::stub_attack)]
+        #[kani::stub(::smallvec::SmallVec::append, crate::move_generator::VerifSv::append)]
+        fn $name() {
+            c01_filter_fixed($case);
+        }
+    };
+}
+filter_fixed_harness!(c01_filter_fixed_knight, 0);
+filter_fixed_harness!(c01_filter_fixed_king, 1);
+filter_fixed_harness!(c01_filter_fixed_capture, 2);
+filter_fixed_harness!(c01_filter_fixed_ep, 3);
+filter_fixed_harness!(c01_filter_fixed_castle, 4);
+filter_fixed_harness!(c01_filter_fixed_promo, 5);
+
+// ---- smallvec cost probes (experimental; not part of any check) ----------------------------------
+fn sv_probe(which: u8) {
+    let f: u8 = kani::any();
+    let t: u8 = kani::any();
+    kani::assume(f < 64 && t < 64);
+    let m = ChessMove::Standard(StandardChessMove::new(Bitboard(rf::bit(f)), Bitboard(rf::bit(t)), None));
+    let cond: bool = kani::any();
+    let mut v = ChessMoveList::new();
+    if cond {
+        v.push(m.clone());
+    }
+    match which {
+        1 => {
+            assert!(v.len() == cond as usize);
+        }
+        2 => {
+            let mut w = ChessMoveList::new();
+            w.append(&mut v);
+            assert!(w.len() == cond as usize);
+            core::mem::forget(w);
+        }
+        3 => {
+            let mut n = 0;
+            for x in v.drain(..) {
+                if x.from_square().0 == rf::bit(f) {
+                    n += 1;
+                }
+            }
+            assert!(n == cond as usize);
+        }
+        _ => {
+            // drain of a concrete-length list whose element is then conditionally pushed elsewhere (the filter's shape without apply/undo)
+            let mut c = ChessMoveList::new();
+            c.push(m.clone());
+            let mut keep = ChessMoveList::new();
+            for x in c.drain(..) {
+                if cond {
+                    keep.push(x);
+                }
+            }
+            c.append(&mut keep);
+            assert!(c.len() == cond as usize);
+            core::mem::forget(c);
+            core::mem::forget(keep);
+        }
+    }
+    core::mem::forget(v);
+}
+macro_rules! sv_harness {
+    ($name:ident, $w:expr) => {
+        #[kani::proof]
+        #[kani::unwind(8)]
+        #[kani::stub(::smallvec::SmallVec::reserve_one_unchecked, stub_no_spill)]
+        #[kani::stub(::smallvec::SmallVec::spilled, crate::move_generator::verif_never_spilled)]
+        #[kani::stub(::smallvec::SmallVec::try_grow, crate::move_generator::verif_no_grow)]
+        #[kani::stub(::smallvec::SmallVec::append, crate::move_generator::VerifSv::append)]
+        fn $name() {
+            sv_probe($w);
+        }
+    };
+}
+sv_harness!(sv_probe_1, 1);
+sv_harness!(sv_probe_2, 2);
+sv_harness!(sv_probe_3, 3);
+sv_harness!(sv_probe_4, 4);
+
+fn sv_probe2(which: u8) {
+    let cond: bool = kani::any();
+    let a: u64 = kani::any();
+    match which {
+        5 => {
+            let mut v: PieceTargetList = smallvec![];
+            if cond {
+                v.push((Bitboard(a), Bitboard(!a)));
+            }
+            let mut n = 0;
+            for x in v.drain(..) {
+                if x.0 .0 == a {
+                    n += 1;
+                }
+            }
+            assert!(n == cond as usize);
+            core::mem::forget(v);
+        }
+        6 => {
+            let mut v: SmallVec<[u64; 32]> = SmallVec::new();
+            if cond {
+                v.push(a);
+            }
+            let mut n = 0;
+            for x in v.drain(..) {
+                if x == a {
+                    n += 1;
+                }
+            }
+            assert!(n == cond as usize);
+            core::mem::forget(v);
+        }
+        7 => {
+            // iterate by index instead of drain
+            let f: u8 = kani::any();
+            kani::assume(f < 64);
+            let m = ChessMove::Standard(StandardChessMove::new(Bitboard(rf::bit(f)), Bitboard(1), None));
+            let mut v = ChessMoveList::new();
+            if cond {
+                v.push(m.clone());
+            }
+            let mut n = 0;
+            for x in v.iter() {
+                if x.from_square().0 == rf::bit(f) {
+                    n += 1;
+                }
+            }
+            assert!(n == cond as usize);
+            core::mem::forget(v);
+        }
+        _ => {
+            // drain with a concrete length but symbolic CONTENT
+            let f: u8 = kani::any();
+            kani::assume(f < 64);
+            let m = ChessMove::Standard(StandardChessMove::new(Bitboard(rf::bit(f)), Bitboard(1), None));
+            let mut v = ChessMoveList::new();
+            v.push(m.clone());
+            let mut n = 0;
+            for x in v.drain(..) {
+                if x.from_square().0 == rf::bit(f) {
+                    n += 1;
+                }
+            }
+            assert!(n == 1);
+            core::mem::forget(v);
+        }
+    }
+}
+macro_rules! sv2_harness {
+    ($name:ident, $w:expr) => {
+        #[kani::proof]
+        #[kani::unwind(8)]
+        #[kani::stub(::smallvec::SmallVec::reserve_one_unchecked, stub_no_spill)]
+        #[kani::stub(::smallvec::SmallVec::spilled, crate::move_generator::verif_never_spilled)]
+        #[kani::stub(::smallvec::SmallVec::try_grow, crate::move_generator::verif_no_grow)]
+        fn $name() {
+            sv_probe2($w);
+        }
+    };
+}
+sv2_harness!(sv_probe_5, 5);
+sv2_harness!(sv_probe_6, 6);
+sv2_harness!(sv_probe_7, 7);
+sv2_harness!(sv_probe_8, 8);
